@@ -10,6 +10,7 @@ import Swim.Drv.C19
 import Swim.Drv.C03
 import Swim.Drv.Sim
 import Swim.Drv.Cluster
+import Swim.Drv.Scale
 /-! Line-protocol driver: `<PROP> <kind> k=v ...` in, `<PROP> <id> <agree|DISAGREE> <ok|BAD:..> ...` out. -/
 open Swim.Parse
 
@@ -19,7 +20,7 @@ def dispatch (line : String) : String :=
   | prop :: kind :: _ =>
     let fs := fields line
     let id := getD fs "id" "?"
-    let body := match prop with
+    let body := if kind == "scale" then Swim.Drv.Scale.handle fs else match prop with
       | "C17" => Swim.Drv.C17.handle kind fs
       | "C03" => Swim.Drv.C03.handle kind fs
       | "C04" => if kind == "cluster" then Swim.Drv.Cluster.handleCluster fs else Swim.Drv.Sim.handleC04 kind fs
